@@ -168,8 +168,13 @@ where
 		// trim the whitespaces to determine whether it's valid JSON-RPC call.
 		if is_single.is_none() {
 			let window = 128 - skipped;
-			let first_non_whitespace =
-				data.chunk().iter().enumerate().take(window).find(|(_, byte)| !byte.is_ascii_whitespace());
+			// JSON whitespace only: anything else (e.g. a form feed) is left for the JSON parser to reject.
+			let first_non_whitespace = data
+				.chunk()
+				.iter()
+				.enumerate()
+				.take(window)
+				.find(|(_, byte)| !matches!(**byte, b' ' | b'\t' | b'\n' | b'\r'));
 
 			let skip = match first_non_whitespace {
 				Some((idx, b'{')) => {
